@@ -1,3 +1,3 @@
-import Litestream.Driver.Util
-/-! Line-protocol driver for C19 (legacy v3 restore). Placeholder until Driver/V3.lean lands. -/
-def main : IO Unit := Litestream.Driver.runDriver []
+import Litestream.Driver.V3
+/-! Line-protocol driver for C19 (legacy 0.3.x restore). -/
+def main : IO Unit := Litestream.Driver.runDriver Litestream.Driver.v3Handlers
